@@ -421,6 +421,9 @@ func c06Config(r *mon.Run, cfg c06cfg, jr *rand.Rand, idx int) {
 			fault{name + " -1", func(m *gabi.IssueSignatureMessage) { p := get(m); *p = sub(*p, bigOne) }},
 			fault{name + " zero", func(m *gabi.IssueSignatureMessage) { p := get(m); *p = bi(0) }},
 			fault{name + " +ord", func(m *gabi.IssueSignatureMessage) { p := get(m); *p = add(*p, ord) }},
+			fault{name + " +N (same residue modulo the key's modulus)", func(m *gabi.IssueSignatureMessage) { p := get(m); *p = add(*p, pk.N) }},
+			fault{name + " +2N", func(m *gabi.IssueSignatureMessage) { p := get(m); *p = add(*p, mul(pk.N, bi(2))) }},
+			fault{name + " -N", func(m *gabi.IssueSignatureMessage) { p := get(m); *p = sub(*p, pk.N) }},
 			fault{name + " other-run", func(m *gabi.IssueSignatureMessage) { p := get(m); *p = cp(otherVal) }},
 		)
 	}
